@@ -23,6 +23,9 @@ reg("C17",
          "them; every block carries a payload and the deprecated fields, every ForkableObject its multi-block step "
          "fields, and 'unchanged' is the whole message / struct compared with a snapshot at the handler call, after "
          "the call and after the run; the tripper's tripFunc must run before the handler call; "
+         "one case in ten runs the two gators as package blockstream wires them: blockstream.NewSource with WithNumGator / "
+         "WithTimeThresholdGator, Source.Run against a gRPC BlockStream server on a loopback port that sends the blocks "
+         "of the case (public API only; observation = which sent blocks reached the handler, proto.Equal); "
          "corpus: 300 held blocks against limits 5 and 200; the New-before-Irreversible "
          "witness, 15001 held blocks against the default limit, gators without logger; non-trivial = non-empty sequence; "
          "distinct by input",
